@@ -1191,6 +1191,8 @@ def main(outfile):
     import py2lean_timeunits                                     # separate module: utils/timeunits.py (C19)
     py2lean_timeunits.main_timeunits(os.path.join(os.path.dirname(outfile), 'TranslatedTimeUnits.lean'), write_if_changed)
 
+    import py2lean_interval                                      # separate module: interval notations, timeinterval.py (C13)
+    py2lean_interval.main_interval(os.path.join(os.path.dirname(outfile), 'TranslatedInterval.lean'), write_if_changed)
 
 if __name__ == '__main__':
     main(sys.argv[1])
